@@ -158,12 +158,25 @@ func (el *eventloop) cread(c *conn) error {
 
 		out, action := el.eventHandler.OnCReact(r, c)
 		if out != nil {
-			// Encode data and try to write it back to the peer, this attempt is based on a fact:
-			// the peer socket waits for the response data after sending request data to the server,
-			// which makes the peer socket writable.
-			MsgPool.Put(r)
-			if _, err = c.write(out); err != nil {
-				return err
+			if c.inMsgQueue.Empty() {
+				// Encode data and try to write it back to the peer, this attempt is based on a fact:
+				// the peer socket waits for the response data after sending request data to the server,
+				// which makes the peer socket writable.
+				MsgPool.Put(r)
+				if _, err = c.write(out); err != nil {
+					return err
+				}
+			} else {
+				// Earlier requests of this connection are still waiting for their backends: the reply
+				// produced by the proxy itself takes its place in the queue so that replies keep the
+				// order of the requests. A pending close (QUIT) is carried out once it has been sent.
+				r.RspBody = append(r.RspBody[:0], out...)
+				r.Done = true
+				c.EnqueueInMsg(r)
+				if action == Close {
+					r.Type = codec.ReqQuit
+					action = None
+				}
 			}
 		}
 		switch action {
@@ -293,8 +306,16 @@ func (el *eventloop) flushClient(c *conn) {
 	}
 
 	// release Msg
+	quit := false
 	for i := 0; i < n; i++ {
-		MsgPool.Put(c.dequeueInMsg())
+		msg := c.dequeueInMsg()
+		if msg.Type == codec.ReqQuit {
+			quit = true
+		}
+		MsgPool.Put(msg)
+	}
+	if quit {
+		_ = el.closeConn(c, nil, ProxyEof)
 	}
 }
 
